@@ -43,6 +43,11 @@ def gen_cases(rng, tier):
   for mant in ("1", "1.2", "2.5", "3", "7", "9.9"):
     for e in (-13, -12, -10, -7, 4, 8):
       cases.append({"kind": "lattice", "step": "%sE%d" % (mant, e), "scaled": True})
+  # cutoff + step, many multiples per step: steps of up to three significant digits over four decades, every k up to 400 and
+  # a sample beyond - where a quotient cutoff/step that should be whole lands an ulp or two off is a matter of the pair
+  more = sorted(set([Decimal(i) / 10000 for i in range(1, 1000)] + [Decimal(i) / 100000 for i in range(10, 100)]))
+  for s_ in more:
+    cases.append({"kind": "quotients", "step": str(s_), "kseed": rng.randrange(1 << 30)})
   cases.append({"kind": "rejections"})
   cases.append({"kind": "defaults"})
   nt = 60 if tier == "quick" else 700
@@ -138,6 +143,30 @@ def setup_worker():
 def tab_of(text):
   from atsim.potentials.config import ConfigParser
   return ConfigParser(io.StringIO(text)).tabulation
+
+
+def run_quotients(case, ctx):
+  step = Decimal(case["step"])
+  rng = random.Random(case["kseed"])
+  ctx.cls("cutoff_and_step_many_multiples")
+  ks = list(range(1, 401)) + sorted(set(rng.randrange(401, 20001) for _ in range(60)))
+  for k in ks:
+    cut = step * k
+    names = ("nr", "dr", "cutoff") if k % 2 else ("nrho", "drho", "cutoff_rho")
+    text = "[Tabulation]\ntarget : setfl\n%s : %s\n%s : %s\n" % (names[2], cut, names[1], step)
+    ctx.count("parser_executions")
+    try:
+      t = tab_of(text)
+      nr = t.nr if k % 2 else t.nrho
+    except Exception as e:
+      et, fn = exc_sig(e)
+      ctx.violation("valid_rejected", "%s given with %s: step=%s k=%d: %s %s" % (names[2], names[1], step, k, et, e), what="valid_rejected", combo="cutoff_dr")
+      return
+    if nr != k + 1:
+      ctx.violation("row_count", "%s = %s with %s = %s (multiple %d) -> %s = %r, expected %d rows" % (names[2], cut, names[1], step, k, names[0], nr, k + 1), what="row_count", combo="cutoff_dr",
+                    mech="truncation" if nr == k else "other")
+      return
+  ctx.nontrivial(True)
 
 
 def run_lattice(case, ctx):
@@ -381,4 +410,4 @@ def run_case(case, ctx):
     ctx.cls("kind:suite_with_contracts")
     return suite_contracts.run_suite(ctx, 'c11', ['init_cutoff'])
   ctx.cls("kind:" + case["kind"])
-  return {"lattice": run_lattice, "rejections": run_rejections, "defaults": run_defaults, "table": run_table}[case["kind"]](case, ctx)
+  return {"lattice": run_lattice, "rejections": run_rejections, "defaults": run_defaults, "table": run_table, "quotients": run_quotients}[case["kind"]](case, ctx)
